@@ -628,3 +628,239 @@ def rf40(run):
                           'instruction and the branch; `mov r, 0` is encoded as xor and clears the flags the branch reads' % names[v], line=site['l'])
             break
     run.min_instances(rule, 6)
+
+
+# ---------------------------------------------------------------------------------------------
+# RF41: the neutral-element shortcut of simplify_func is confined to plain integer arithmetic
+# ---------------------------------------------------------------------------------------------
+
+class MayEval:
+    """three-valued evaluation: which truth values / integer results are possible when some atoms are unknown"""
+
+    def __init__(self, tu):
+        self.tu = tu
+        self.preds = EF.Predicates(tu)
+        self.depth = 0
+
+    def values(self, e, env):
+        """set of possible integer values of e, or None when anything is possible"""
+        v = self.preds.eval(e, env, frozenset())
+        if v is not None:
+            return {v}
+        e = F.strip(e)
+        k = e['k']
+        if k == 'ConditionalOperator':
+            t = self.truth(e['c'][0], env)
+            out = set()
+            for tv, arm in ((True, e['c'][1]), (False, e['c'][2])):
+                if tv in t:
+                    s = self.values(arm, env)
+                    if s is None:
+                        return None
+                    out |= s
+            return out
+        if k == 'BinaryOperator' and e['op'] == '=':
+            return self.values(e['c'][1], env)
+        if k == 'CallExpr' and e.get('callee') in self.tu.funcs and self.tu.funcs[e['callee']].body is not None and self.depth < 3:
+            g = self.tu.funcs[e['callee']]
+            env2 = {}
+            for prm, a in zip(g.params, F.call_args(e)):
+                pv = self.preds.eval(a, env, frozenset())
+                if pv is not None:
+                    env2[prm['n']] = pv
+                EF.Predicates._struct_arg(prm['n'], a, env, env2)
+            self.depth += 1
+            try:
+                return self.returns(F.kids(g.body), env2)
+            finally:
+                self.depth -= 1
+        return None
+
+    def truth(self, e, env):
+        """subset of {True, False} that e can evaluate to"""
+        v = self.preds.eval(e, env, frozenset())
+        if v is not None:
+            return {bool(v)}
+        e = F.strip(e)
+        k = e['k']
+        if k == 'BinaryOperator' and e['op'] in ('&&', '||'):
+            a, b = self.truth(e['c'][0], env), self.truth(e['c'][1], env)
+            if e['op'] == '&&':
+                r = set()
+                if True in a and True in b:
+                    r.add(True)
+                if False in a or (True in a and False in b):
+                    r.add(False)
+                return r
+            r = set()
+            if True in a or (False in a and True in b):
+                r.add(True)
+            if False in a and False in b:
+                r.add(False)
+            return r
+        if k == 'UnaryOperator' and e['op'] == '!':
+            return {not x for x in self.truth(e['c'][0], env)}
+        if k == 'BinaryOperator' and e['op'] in ('==', '!='):
+            a, b = self.values(e['c'][0], env), self.values(e['c'][1], env)
+            if a is not None and b is not None:
+                r = set()
+                for x in a:
+                    for y in b:
+                        r.add((x == y) if e['op'] == '==' else (x != y))
+                return r
+        return {True, False}
+
+    def returns(self, stmts, env):
+        """possible return values of a statement list (forks on unknown conditions); None = unknown"""
+        out = set()
+        for i, st in enumerate(stmts):
+            k = st['k']
+            if k == 'ReturnStmt':
+                ks = F.kids(st)
+                s = self.values(ks[0], env) if ks else set()
+                return None if s is None else out | s
+            if k == 'CompoundStmt':
+                s = self.returns(F.kids(st) + [{'k': '__cont__'}], env)
+                if s is None:
+                    return None
+                if '__cont__' not in s:
+                    return out | s
+                out |= s - {'__cont__'}
+                continue
+            if k == '__cont__':
+                return out | {'__cont__'}
+            if k == 'IfStmt':
+                t = self.truth(st['c'][0], env)
+                falls = False
+                for tv, arm in ((True, st['c'][1]), (False, st['c'][2])):
+                    if tv not in t:
+                        continue
+                    if arm is None:
+                        falls = True
+                        continue
+                    s = self.returns([arm, {'k': '__cont__'}], dict(env))
+                    if s is None:
+                        return None
+                    if '__cont__' in s:
+                        falls = True
+                    out |= s - {'__cont__'}
+                if not falls:
+                    return out
+                continue
+            if k == 'SwitchStmt':
+                v = self.preds.eval(st['c'][0], env, frozenset())
+                body = st['c'][1]
+                if v is None or body is None or body['k'] != 'CompoundStmt':
+                    return None
+                seq, started, dflt = [], False, None
+                ks = F.kids(body)
+                for j, s_ in enumerate(ks):
+                    x = s_
+                    labels = []
+                    while x is not None and x['k'] in ('CaseStmt', 'DefaultStmt'):
+                        labels.append(x)
+                        x = F.kids(x)[0] if F.kids(x) else None
+                    if not started:
+                        if any(lb['k'] == 'CaseStmt' and lb.get('lo') is not None and lb['lo'] <= v <= lb.get('hi', lb['lo']) for lb in labels):
+                            started = True
+                        elif any(lb['k'] == 'DefaultStmt' for lb in labels) and dflt is None:
+                            dflt = j
+                    if started and x is not None:
+                        if x['k'] == 'BreakStmt':
+                            break
+                        seq.append(x)
+                if not started and dflt is not None:
+                    for s_ in ks[dflt:]:
+                        x = s_
+                        while x is not None and x['k'] in ('CaseStmt', 'DefaultStmt'):
+                            x = F.kids(x)[0] if F.kids(x) else None
+                        if x is None:
+                            continue
+                        if x['k'] == 'BreakStmt':
+                            break
+                        seq.append(x)
+                s = self.returns(seq + [{'k': '__cont__'}], dict(env))
+                if s is None:
+                    return None
+                if '__cont__' not in s:
+                    return out | s
+                out |= s - {'__cont__'}
+                continue
+            if k == 'DeclStmt':
+                for d in st['decls']:
+                    if d.get('init') is not None:
+                        pv = self.preds.eval(d['init'], env, frozenset())
+                        if pv is not None:
+                            env[d['n']] = pv
+                        else:
+                            env.pop(d['n'], None)
+                            # `op = &insn->ops[2]`: facts about the pointee are addressed through the pointer
+                            i0 = F.strip(d['init'])
+                            if i0['k'] == 'UnaryOperator' and i0['op'] == '&':
+                                t0 = F.src(F.strip(i0['c'][0]))
+                                for key, val in list(env.items()):
+                                    if isinstance(key, str) and key.startswith(t0 + '.'):
+                                        env[d['n'] + '->' + key[len(t0) + 1:]] = val
+                continue
+            if k == 'BinaryOperator' and st['op'] == '=':
+                l = F.strip(st['c'][0])
+                if l['k'] == 'DeclRefExpr':
+                    pv = self.preds.eval(st['c'][1], env, frozenset())
+                    if pv is None:
+                        env.pop(l['n'], None)
+                    else:
+                        env[l['n']] = pv
+                continue
+            if k in ('ForStmt', 'WhileStmt', 'DoStmt', 'GotoStmt'):
+                return None
+        return out
+
+
+def rf41(run):
+    rule = 'RF41'
+    run.rule(rule, 'simplify_func: the shortcut `op r, x, <neutral constant>  =>  move r, x` can fire (three-valued evaluation of its '
+                   'condition with unknown operands) only for plain integer arithmetic opcodes; never for floating-point opcodes '
+                   '(x + 0.0 is not x for x = -0.0, and a move keeps a signalling NaN) nor for overflow-flag producers')
+    import sys as _sys, os as _os
+    _sys.path.insert(0, _os.path.join(F.VERIF, 'spec'))
+    import opcodes as SPEC
+    tu = run.tu('mir')
+    f = tu.func('simplify_func')
+    run.functions_analysed.add(('mir', f.name))
+    site = None
+    for x in f.walk():
+        if x['k'] != 'IfStmt' or x['c'][1] is None:
+            continue
+        th = x['c'][1]
+        news = [y for y in F.walk(th) if y['k'] == 'CallExpr' and y.get('callee') == 'MIR_new_insn' and len(F.call_args(y)) == 4
+                and F.src(F.strip(F.call_args(y)[2])) == 'insn->ops[0]' and F.src(F.strip(F.call_args(y)[3])) == 'insn->ops[1]']
+        rem = [y for y in F.walk(th) if y['k'] == 'CallExpr' and y.get('callee') == 'MIR_remove_insn']
+        nested = [y for y in F.walk(th) if y['k'] == 'IfStmt' and any(z is n_ for n_ in news for z in F.walk(y))]
+        if news and rem and all(F.const_value(F.call_args(n_)[1]) is None or True for n_ in news):
+            # the innermost if-statement that contains both
+            if site is None or (x['l'] >= site['l'] and any(z is x for z in F.walk(site))):
+                site = x
+    if site is None:
+        raise F.AnalysisBroken('simplify_func: the neutral-element shortcut was not found')
+    me = MayEval(tu)
+    n = 0
+    first = None
+    for cname, cval in tu.enum('MIR_insn_code_t'):
+        if not cname.startswith('MIR_') or cname in ('MIR_INSN_BOUND', 'MIR_INVALID_INSN'):
+            continue
+        sp = SPEC.parse(cname[4:])
+        env = {'code': cval, 'insn->code': cval, 'insn->nops': 3}
+        t = me.truth(site['c'][0], env)
+        can = True in t
+        allowed = sp is not None and sp.dom == 'i' and sp.kind == 'arith'
+        ok = (not can) or allowed
+        n += 1
+        run.ob(rule, (cname,), ok, {'opcode': cname, 'shortcut can fire': can, 'plain integer arithmetic': allowed})
+        if not ok and first is None:
+            first = cname
+    if first:
+        run.violation(rule, f, 'neutral-element shortcut for %s' % first,
+                      'simplify_func can replace %s with a constant third operand by a move of the second operand; that is not an '
+                      'identity for this opcode (floating point: (-0.0) + 0.0 is +0.0 and a signalling NaN is quieted; overflow '
+                      'producers: the flags are lost)' % first, line=site['l'])
+    run.min_instances(rule, 150)
